@@ -13,11 +13,11 @@ let () =
          | Stdlib.Error m -> Printf.printf "PARSEERROR %d %s\n%!" !lineno m
          | Stdlib.Ok c ->
              (match check_case c with
-              | [] -> print_string "OK\n"
+              | [] -> print_string "OK\n"; flush stdout
               | l ->
                   let b = Buffer.create 256 in
                   Ast.print_t b (TL l);
-                  Printf.printf "MISMATCH %s\n" (Buffer.contents b))
+                  Printf.printf "MISMATCH %s\n%!" (Buffer.contents b))
        end
      done
    with End_of_file -> ());
